@@ -211,7 +211,7 @@ func (c *Coordinator) updateScrapeStatusShards(shards []*shardInfo, status map[u
 // 2. is in_transfer state and had been scraped by other shard
 // 3. is normal state and had been scraped by other shard with lower head series
 func (c *Coordinator) gcTargets(changeAbleShards []*shardInfo, active map[uint64]*discovery.SDTargets) {
-	for _, s := range changeAbleShards {
+	for si, s := range changeAbleShards {
 		for h, tar := range s.scraping {
 			// target not exist in active targets
 			if _, exist := active[h]; !exist {
@@ -223,7 +223,7 @@ func (c *Coordinator) gcTargets(changeAbleShards []*shardInfo, active map[uint64
 				continue
 			}
 
-			for _, other := range changeAbleShards {
+			for oi, other := range changeAbleShards {
 				if s == other {
 					continue
 				}
@@ -236,8 +236,13 @@ func (c *Coordinator) gcTargets(changeAbleShards []*shardInfo, active map[uint64
 					}
 
 					if tar.TargetState == st.TargetState {
-						if (c.option.MaxHeadSeries != 0 && other.runtime.HeadSeries < s.runtime.HeadSeries) ||
-							(c.option.MaxHeadSeries == 0 && other.runtime.ProcessSeries < s.runtime.ProcessSeries) {
+						sLoad, oLoad := s.runtime.ProcessSeries, other.runtime.ProcessSeries
+						if c.option.MaxHeadSeries != 0 {
+							sLoad, oLoad = s.runtime.HeadSeries, other.runtime.HeadSeries
+						}
+						// equally loaded shards: the one listed later gives the duplicate up,
+						// otherwise neither does and the target stays duplicated for ever
+						if oLoad < sLoad || (oLoad == sLoad && oi < si) {
 							delete(s.scraping, h)
 							break
 						}
